@@ -26,8 +26,8 @@ import (
 	"io"
 	"net"
 	"os"
-	"runtime/debug"
 	osexec "os/exec"
+	"runtime/debug"
 	"strconv"
 	"strings"
 	"sync"
@@ -137,7 +137,7 @@ func classOf(w []string) (string, bool) {
 		kinds[o[0]] = true
 	}
 	var ks []string
-	for _, k := range "FTHXDIR" {
+	for _, k := range "FTHXDIRMV" {
 		if kinds[byte(k)] {
 			ks = append(ks, string(k))
 		}
@@ -263,20 +263,25 @@ type delivery struct {
 }
 
 type receiver struct {
-	node  p2p.P2PInterface
-	addr  string
-	mu    sync.Mutex
-	got   []delivery
-	tick  chan struct{}
-	probe chan struct{}
-	pOnce sync.Once
+	node    p2p.P2PInterface
+	addr    string
+	replyTo map[int]bool // message indices this node answers with Reply (reflection of replies)
+	mu      sync.Mutex
+	got     []delivery
+	tick    chan struct{}
+	probe   chan struct{}
+	pOnce   sync.Once
 }
 
 const probeMark = 1 << 40
 
 func startReceiver() *receiver {
-	r := &receiver{tick: make(chan struct{}, 1), probe: make(chan struct{})}
-	r.node, r.addr = startNode("B", func([]byte) string { return "" })
+	return startReceiverAs("B", func([]byte) string { return "" }, nil)
+}
+
+func startReceiverAs(id string, lookup func([]byte) string, replyTo map[int]bool) *receiver {
+	r := &receiver{tick: make(chan struct{}, 1), probe: make(chan struct{}), replyTo: replyTo}
+	r.node, r.addr = startNode(id, lookup)
 	protos := []interface{}{p2p.Ping{}, p2p.Pong{}, vss.Signature{}, vss.PublicKey{}}
 	for t, m := range protos {
 		ch, err := r.node.SubscribeMsg(256, m)
@@ -290,6 +295,9 @@ func startReceiver() *receiver {
 					continue
 				}
 				tt, idx := idxOf(m.Msg.Message)
+				if r.replyTo[idx] {
+					go r.node.Reply(context.Background(), m.Sender, m.RequestNonce, &p2p.Pong{Count: uint64(idx)})
+				}
 				raw, _ := proto.Marshal(m.Msg.Message)
 				r.mu.Lock()
 				if tt != t {
@@ -439,6 +447,10 @@ type proxy struct {
 	mu      sync.Mutex
 	conns   []net.Conn
 	cutDone chan struct{}
+	wa, wb  sync.Mutex // writes towards A / towards B
+	reflect chan int   // indices whose reply (B→A) is also to be sent back to B
+	vdone   map[int]chan struct{}
+	mirror  []int // A→B frames sent back to A (reflection) once the last frame has gone through
 }
 
 func (p *proxy) tm(i int) *tamper {
@@ -469,12 +481,45 @@ func (p *proxy) run() {
 		first := len(p.conns) == 0
 		p.conns = append(p.conns, a, b)
 		p.mu.Unlock()
-		go func() { io.Copy(a, b); a.Close() }()
 		if !first { // only the first connection is scripted
+			go func() { io.Copy(a, b); a.Close() }()
 			go func() { io.Copy(b, a); b.Close() }()
 			continue
 		}
+		go p.pumpBack(a, b)
 		go p.pump(a, b)
+	}
+}
+
+// pumpBack forwards B→A frame by frame; a reply whose index is queued in p.reflect is also
+// sent straight back to B (reflection of a server→client frame).
+func (p *proxy) pumpBack(a, b net.Conn) {
+	defer a.Close()
+	first := true
+	for {
+		var hd [4]byte
+		if _, err := io.ReadFull(b, hd[:]); err != nil {
+			return
+		}
+		body := make([]byte, binary.BigEndian.Uint32(hd[:]))
+		if _, err := io.ReadFull(b, body); err != nil {
+			return
+		}
+		p.wa.Lock()
+		a.Write(frame(body))
+		p.wa.Unlock()
+		if first {
+			first = false
+			continue
+		}
+		select {
+		case i := <-p.reflect:
+			p.wb.Lock()
+			b.Write(frame(body))
+			p.wb.Unlock()
+			close(p.vdone[i])
+		default:
+		}
 	}
 }
 
@@ -482,6 +527,7 @@ func (p *proxy) pump(a, b net.Conn) {
 	defer b.Close()
 	defer a.Close()
 	idx := -1 // -1 = the handshake frame
+	var stored [][]byte
 	for {
 		var hd [4]byte
 		if _, err := io.ReadFull(a, hd[:]); err != nil {
@@ -493,10 +539,13 @@ func (p *proxy) pump(a, b net.Conn) {
 			return
 		}
 		if idx < 0 {
+			p.wb.Lock()
 			b.Write(frame(body))
+			p.wb.Unlock()
 			idx++
 			continue
 		}
+		p.wb.Lock()
 		t := p.tm(idx)
 		for _, in := range t.inject {
 			b.Write(frame(syn(in[0], in[1])))
@@ -517,6 +566,7 @@ func (p *proxy) pump(a, b net.Conn) {
 		}
 		if t.cut >= 0 {
 			b.Write(wire[:t.cut%len(wire)])
+			p.wb.Unlock()
 			if idx < len(p.seen) {
 				p.once[idx].Do(func() { close(p.seen[idx]) })
 			}
@@ -531,6 +581,17 @@ func (p *proxy) pump(a, b net.Conn) {
 				d[pos/8] ^= 1 << uint(pos%8)
 			}
 			b.Write(frame(d))
+		}
+		p.wb.Unlock()
+		stored = append(stored, orig)
+		if idx == len(p.seen)-1 { // reflection of client→server frames, after the last one has gone through
+			for _, j := range p.mirror {
+				if j < len(stored) {
+					p.wa.Lock()
+					a.Write(frame(stored[j]))
+					p.wa.Unlock()
+				}
+			}
 		}
 		if idx < len(p.seen) {
 			p.once[idx].Do(func() { close(p.seen[idx]) })
@@ -555,6 +616,18 @@ func execMitm(msgsS, opsS string) (res h.Result) {
 		return tab[i]
 	}
 	errInducing, terminalAt := 0, -1
+	replyTo := map[int]bool{}      // messages B answers with Reply
+	reflectReply := map[int]bool{} // … and whose reply the proxy also sends back to B
+	var mirror []int
+	altered := map[int]bool{} // honest frames the adversary changed themselves
+	framingDamage := false
+	for _, op := range split(opsS) {
+		if j := h.Atoi(strings.Split(op[1:], ":")[0]); op[0] == 'F' || op[0] == 'T' {
+			altered[j] = true
+		} else if op[0] == 'H' || op[0] == 'X' {
+			framingDamage = true
+		}
+	}
 	for _, op := range split(opsS) {
 		a := strings.Split(op[1:], ":")
 		i := h.Atoi(a[0])
@@ -586,46 +659,139 @@ func execMitm(msgsS, opsS string) (res h.Result) {
 			errInducing++
 		case 'R':
 			t.after = append(t.after, -1)
+		case 'M':
+			mirror = append(mirror, i)
+		case 'V':
+			replyTo[i] = true
+			reflectReply[i] = true
+			errInducing++
 		default:
 			panic("bad op " + op)
 		}
 	}
-	recv := startReceiver()
+	if len(mirror) > 0 {
+		// B answers the last message: its reply reaches A behind the reflected frames, so A's call
+		// coming back shows that A has dealt with them
+		replyTo[sentinel] = true
+	}
+	recv := startReceiverAs("B", func([]byte) string { return "" }, replyTo)
 	ln, err := net.Listen("tcp", "127.0.0.1:0")
 	if err != nil {
 		panic(err)
 	}
-	px := &proxy{ln: ln, target: recv.addr, tab: tab, seen: make([]chan struct{}, len(sent)), once: make([]sync.Once, len(sent)), cutDone: make(chan struct{})}
+	px := &proxy{ln: ln, target: recv.addr, tab: tab, seen: make([]chan struct{}, len(sent)), once: make([]sync.Once, len(sent)), cutDone: make(chan struct{}),
+		reflect: make(chan int, len(sent)), vdone: map[int]chan struct{}{}, mirror: mirror}
 	for i := range px.seen {
 		px.seen[i] = make(chan struct{})
+		px.vdone[i] = make(chan struct{})
 	}
 	go px.run()
-	a, _ := startNode("A", func(id []byte) string {
+	// A is a full node too: whatever is reflected to it must not reach ITS subscribers
+	arecv := startReceiverAs("A", func(id []byte) string {
 		if string(id) == "B" {
 			return ln.Addr().String()
 		}
 		return ""
-	})
+	}, nil)
+	a := arecv.node
 	ctx, cancel := context.WithCancel(context.Background())
 	stuck := ""
+	var repMu sync.Mutex
+	rep := map[int]string{}
 	for i, m := range sent {
-		go a.Request(ctx, []byte("B"), m)
+		if reflectReply[i] {
+			px.reflect <- i
+		}
+		go func(i int, m proto.Message) {
+			r, err := a.Request(ctx, []byte("B"), m)
+			if replyTo[i] {
+				repMu.Lock()
+				if pg, ok := r.Msg.Message.(*p2p.Pong); err == nil && ok && int(pg.Count) == i {
+					rep[i] = "ok"
+				} else {
+					rep[i] = "err"
+				}
+				repMu.Unlock()
+			}
+		}(i, m)
 		select {
 		case <-px.seen[i]:
 		case <-time.After(20 * time.Second):
 			stuck = fmt.Sprintf("sender-stuck: frame %d never reached the proxy", i)
 		}
+		if reflectReply[i] && stuck == "" {
+			select { // the reply has been forwarded to A and reflected to B before the next frame leaves
+			case <-px.vdone[i]:
+			case <-time.After(7 * time.Second):
+			}
+		}
 		if stuck != "" || i == terminalAt {
 			break
 		}
 	}
-	certain := errInducing <= 1 && stuck == ""
+	// rejected frames no longer stall the connection: unless the framing itself was damaged the
+	// last message must come out (event-driven wait); otherwise wait until nothing arrives any more
+	certain := !framingDamage && stuck == ""
 	back := recv.waitFor(0, sentinel, certain)
 	alive := recv.alive()
+	aAlive := arecv.alive()
+	// replies asked for: wait for the calls to come back (they do within the 5 s request deadline)
+	for i := range replyTo {
+		for t0 := time.Now(); time.Since(t0) < 7*time.Second; time.Sleep(10 * time.Millisecond) {
+			repMu.Lock()
+			_, ok := rep[i]
+			repMu.Unlock()
+			if ok {
+				break
+			}
+		}
+	}
 	cancel()
 	res.Impl, res.Oracle = recv.report(len(sent), sent, "A", back, alive)
+	// what A's own subscribers saw (nothing was ever sent TO A's subscribers) and the replies A got
+	arecv.mu.Lock()
+	nA := len(arecv.got)
+	arecv.mu.Unlock()
+	var reps []string
+	for i := 0; i < len(sent); i++ {
+		if replyTo[i] {
+			repMu.Lock()
+			r := rep[i]
+			repMu.Unlock()
+			if r == "" {
+				r = "err"
+			}
+			reps = append(reps, r)
+		}
+	}
+	rs := "-"
+	if len(reps) > 0 {
+		rs = strings.Join(reps, ",")
+	}
+	aa := "yes"
+	if !aAlive {
+		aa = "no"
+	}
+	res.Impl += fmt.Sprintf(" a=%d aalive=%s rep=%s", nA, aa, rs)
+	if nA > 0 {
+		res.Oracle = fmt.Sprintf("reflected-delivered: %d message(s) reached the subscribers of A, to which nothing was ever sent (its own frames reflected back to it)", nA)
+	}
+	if !aAlive && res.Oracle == "" {
+		res.Oracle = "receiver-dead: A no longer delivers over a fresh honest connection"
+	}
 	if stuck != "" && res.Oracle == "" {
 		res.Oracle = stuck
+	}
+	if !framingDamage && stuck == "" && res.Oracle == "" {
+		// injected, duplicated-and-altered, reflected or replayed frames must not cost honest frames
+		// their delivery: every message whose own frame was left alone is delivered
+		for i := range sent {
+			t, _ := idxOf(sent[i])
+			if !altered[i] && !recv.has(t, i) {
+				res.Oracle = fmt.Sprintf("honest-after-junk-not-delivered: message %d (frame untouched) was never delivered; ops %s", i, opsS)
+				break
+			}
+		}
 	}
 	if errInducing == 0 && res.Oracle == "" {
 		// honest transport: each message exactly once, in order, to the subscriber of its type
@@ -750,7 +916,7 @@ func execOwn(itemsS string) (res h.Result) {
 		}
 	}
 	sentinel := len(items) - 1
-	back := recv.waitFor(0, sentinel, bad <= 1)
+	back := recv.waitFor(0, sentinel, true)
 	alive := recv.alive()
 	res.Impl, res.Oracle = recv.report(len(items), sent, "H", back, alive)
 	if bad == 0 && res.Oracle == "" {
@@ -833,8 +999,8 @@ func gen(tier string, rng *h.Rng, emit func(string)) {
 	emit("mitm " + strings.Join(msgs(5, true), ",") + " -")
 	emit("mitm 2:1048000:9 -")
 	// one tampering op at a time, every kind, position anywhere
-	kinds := "FTDIHXR"
-	n1 := 60
+	kinds := "FTDIHXRMV"
+	n1 := 54
 	if thorough {
 		n1 = 500
 	}
@@ -843,7 +1009,7 @@ func gen(tier string, rng *h.Rng, emit func(string)) {
 		ms := msgs(n, rng.Intn(25) == 0)
 		k := kinds[i%len(kinds)]
 		f := rng.Intn(n + 1) // frame index, may be the sentinel
-		if k == 'D' || k == 'R' {
+		if k == 'D' || k == 'R' || k == 'V' {
 			f = rng.Intn(n) // what follows the sentinel is not awaited
 		}
 		var op string
@@ -865,11 +1031,24 @@ func gen(tier string, rng *h.Rng, emit func(string)) {
 			op = fmt.Sprintf("X%d:%d", f, rng.Intn(1<<20))
 		case 'R':
 			op = fmt.Sprintf("R%d", f)
+		case 'M': // reflection of client→server frames back to the client: one, or several
+			op = fmt.Sprintf("M%d", f)
+			for j := rng.Intn(3); j > 0; j-- {
+				op += fmt.Sprintf(",M%d", rng.Intn(n+1))
+			}
+		case 'V': // reflection of a server→client frame (a reply) back to the server
+			op = fmt.Sprintf("V%d", f)
+			if f+1 <= n && rng.Bool() {
+				op += fmt.Sprintf(",I%d:%d:%d", f+1+rng.Intn(n-f), 1+rng.Intn(200), rng.Intn(1000))
+			}
 		}
 		emit("mitm " + strings.Join(ms, ",") + " " + op)
 	}
+	emit("mitm 0:1:1,1:1:2,2:50:3 M0,M1,M3")
+	emit("mitm 0:1:1,1:1:2,2:50:3 V1,M0,M2")
+	emit("mitm 2:100:1,3:100:2 I0:10:1,I0:20:2,I1:5:3,D1:77,I2:9:4")
 	// several ops
-	n2 := 25
+	n2 := 20
 	if thorough {
 		n2 = 250
 	}
